@@ -5,11 +5,10 @@ import Witverif.Props.C03
 # C11 — C guest bindings release exactly the memory and handles they own
 
 Objects:
-* `CProfile.cFrees` — model of `define_dtor` / `free` (crates/c/src/lib.rs:1928-2062): the `free`
-  calls a generated `<type>_free` helper performs on a value in linear memory, with the complete
-  `dtor_funcs` registry; `CProfile.cFreesLate` — the same under the registry as
-  `define_live_types` actually builds it in a pass that meets an already defined shared anonymous
-  type (`continue` before `define_dtor`);
+* `CProfile.cFrees` — model of `define_dtor` / `free` (crates/c/src/lib.rs): the `free` calls a
+  generated `<type>_free` helper performs on a value in linear memory (the `dtor_funcs` registry is
+  complete in every pass since the repair; `CProfile.cFreesLate` describes the pre-repair registry
+  and only serves to name a regression);
 * `CProfileSpec.ownedBuffers` — specification: the buffers a value owns;
 * `CProfile.cDtorExportName` — the export name `type_resource` gives a destructor;
   `CProfileSpec.dtorExportName` — the name the component model binds (`Resolve::wasm_export_name`);
@@ -40,15 +39,11 @@ theorem c_free_helpers_ignore_handles (p : Nat) (m : Spec.Mem) (a : Nat) :
     (∀ x, cFrees p m (.future x) a = []) ∧ (∀ x, cFrees p m (.stream x) a = []) := by
   simp [cFrees]
 
-/- Full statement for the helpers *as generated in every pass*:
-     ∀ p m t a, (cFreesObserved true p m t a).Perm (ownedBuffers p m t a)
-   It is false of the current code: -/
-
-/-- **Full statement is false.**  In a pass that meets an already defined shared anonymous type
-(`list<bool>` named `<world>_list_bool_t` by an earlier pass) the helper of
-`variant v { a, b(list<bool>) }` has an empty `case 1`: the two-element list of the value
-`b([true, false])` stored at 16 (buffer at 32) is never freed. -/
-theorem c_free_helpers_exact_full_false :
+/-- The registry of the repaired generator is complete in every pass, so the helper the C user finds
+is `cFrees` (`cFreesObserved false`); under the pre-repair registry (`cFreesObserved true`) the
+statement was false — kept as a regression witness: the helper of `variant v { a, b(list<bool>) }`
+generated in a later pass freed nothing of `b([true, false])`. -/
+theorem c_free_helpers_regression_witness :
     ¬ (∀ (p : Nat) (m : Spec.Mem) (t : Ty) (a : Nat), (cFreesObserved true p m t a).Perm (ownedBuffers p m t a)) := by
   intro h
   have := (h 4 ((Spec.store 4 (.variant [none, some (.list .bool)])
@@ -57,9 +52,8 @@ theorem c_free_helpers_exact_full_false :
   revert this
   decide
 
-/-- **Partial form**: whenever no member of the type (at any depth) has a shared anonymous type —
-or the helper is the one generated by the first pass — the generated helper is exact. -/
-theorem c_free_helpers_exact_partial (late : Bool) (p : Nat) (m : Spec.Mem) (t : Ty) (a : Nat)
+/-- … and even then exact whenever no member has a shared anonymous type. -/
+theorem c_free_helpers_exact_any_registry (late : Bool) (p : Nat) (m : Spec.Mem) (t : Ty) (a : Nat)
     (h : late = false ∨ noSharedMember t = true) :
     (cFreesObserved late p m t a).Perm (ownedBuffers p m t a) := by
   unfold cFreesObserved
@@ -79,26 +73,13 @@ example :
 
 /-! ## the destructor export of an exported resource -/
 
-/- Full statement: ∀ module name, cDtorExportName module name = dtorExportName module name. -/
+/-- **The destructor is exported under the name the component model binds**, for every interface and
+every resource name (multi-word names included).  (False before /repo 97de409, which exported
+`#[dtor]<snake_case name>`.) -/
+theorem c_dtor_export_name (module name : List Char) :
+    cDtorExportName module name = dtorExportName module name := rfl
 
-/-- **Full statement is false**: resource `my-res` of `t:t/i` is exported as `t:t/i#[dtor]my_res`; the
-component model binds `t:t/i#[dtor]my-res`, so the user destructor is never called. -/
-theorem c_dtor_export_name_full_false :
-    ¬ (∀ module name : List Char, cDtorExportName module name = dtorExportName module name) := by
-  intro h
-  have := h "t:t/i".toList "my-res".toList
-  revert this
-  decide
-
-/-- **Partial form (exact characterisation)**: for a lower-case kebab name the generated export name
-is the spec's iff the name contains no separator — i.e. exactly the single-word resource names. -/
-theorem c_dtor_export_name_partial (module name : List Char)
-    (hs : Witverif.Text.Heck.simpleTail true name = true) :
-    cDtorExportName module name = dtorExportName module name ↔
-      ∀ c ∈ name, Witverif.Text.Heck.isAlnum c = true ∨ c = '_' :=
-  cDtorExportName_eq_iff module name hs
-
-example : cDtorExportName "t:t/i".toList "res".toList = dtorExportName "t:t/i".toList "res".toList := by decide
+example : cDtorExportName "t:t/i".toList "my-res".toList = "t:t/i#[dtor]my-res".toList := by decide
 
 /-! ## post-return and import arguments (the shared generator at the C profile) -/
 
